@@ -15,8 +15,8 @@ import (
 )
 
 func init() {
-	props["C15"] = &propDef{run: runC15, explanation: "Partial (structural agreement of signer and verifier; not the cryptography). Decided statically: (X1) the signer's curve→hash table and the verifier's curve-name→(curve, coordinate width, hash) table agree row by row, every width equals ⌈bit size/8⌉ of the curve named in the same row (specification table P-256:256, P-384:384, P-521:521, secp256k1:256), and the signer pads r and s to ⌈BitSize/8⌉ computed from the key's own curve; (X2) one signingInput function produces the signing input for both signing and verification from (headers, payload); compact serialisation and parsing use the single encoding base64.RawURLEncoding, the separator '.', and exactly three parts; (G1) the verifier slices the signature only behind len(sig) == 2·width, tests the boolean results of ecdsa.Verify / ed25519.Verify, guards the Ed25519 key size, rejects empty signature / payload segments, and SignPayload refuses a signer without an alg header. Not decided: 'verifies iff produced by the matching key over the same bytes' (cryptography,  go-jose key decoding). (K2) JOSE headers on the parse / verify paths are decoded with the go-jose decoder, which refuses duplicate member names (read from the library source): the verified signing input is rebuilt from the parsed header, so anything the decoder drops would be unsigned header content. The C16 rules (JWK coordinate width, padding helpers, strict reading) run inside this check as well. SerializeCompact writes each segment as the unpadded base64url text of its part. A supplied detached payload is the payload on every accepting path; NewJWS stores header maps made for that JWS; the compact form is three dot-separated segments however assembled. NewJWS hands sign the JOSE headers it stores; ed25519.Verify receives the whole signature parameter. VerifySignature accepts only behind Verify; the signer emits ecdsa.Sign's r and s as returned; Signature() returns a copy. The signing input is checked in concatenation form per alternative. The compact text is handed on as given."}
-	props["C16"] = &propDef{run: runC16, explanation: "Partial (thin). Decided statically: (K1) secp256k1 JWK marshalling pads X and Y (public and private form) through one padding helper with the constant 32 = ⌈256/8⌉, and the helper left-pads to exactly the requested length; (G1) unmarshalling a secp256k1 JWK succeeds only with X and Y present, each of length curveSize(S256) and the point on the curve (IsOnCurve true edge); curveSize is ⌈BitSize/8⌉; (T1) GetPublicKeyJWK's type switch admits exactly ed25519.PublicKey, *rsa.PublicKey and *ecdsa.PublicKey, marks a key as (EC, secp256k1) exactly when its curve is btcec.S256(), and rejects other types; isSecp256k1 compares both kty and crv. Not decided: the NIST and Ed25519 encodings (delegated to go-jose) and round-trip equality. (G2) closed rejection set of the secp256k1 reader: it says no only for a missing coordinate, a coordinate / private value of the wrong width, or a point off the curve (conditions inside helper predicates are followed). (K2) every (*big.Int).Bytes() flows only into a right-aligning sink; (G3) byteBuffer.data is exactly the base64url decoder's result. (*JWK).UnmarshalJSON stores the decoded key-type and curve labels before every accepting exit. The secp256k1 encoder writes the registered key-type and curve names; key conversion functions keep no state between calls. EC keys are built only in the checked reader's call tree; every decode into go-jose's JSONWebKey sits inside the strict reader; jws.JWK.Validate has the closed set of refusals; C15.X1's curve tables run here. JWK copies are member for member; C19.N on the JWK reader's functions. JWK texts for the strict reader are written by the JSON encoder; the receiver of UnmarshalJSON is untouched on failure."}
+	props["C15"] = &propDef{run: runC15, explanation: "Partial (structural agreement of signer and verifier; not the cryptography). Decided statically: (X1) the signer's curve→hash table and the verifier's curve-name→(curve, coordinate width, hash) table agree row by row, every width equals ⌈bit size/8⌉ of the curve named in the same row (specification table P-256:256, P-384:384, P-521:521, secp256k1:256), and the signer pads r and s to ⌈BitSize/8⌉ computed from the key's own curve; (X2) one signingInput function produces the signing input for both signing and verification from (headers, payload); compact serialisation and parsing use the single encoding base64.RawURLEncoding, the separator '.', and exactly three parts; (G1) the verifier slices the signature only behind len(sig) == 2·width, tests the boolean results of ecdsa.Verify / ed25519.Verify, guards the Ed25519 key size, rejects empty signature / payload segments, and SignPayload refuses a signer without an alg header. Not decided: 'verifies iff produced by the matching key over the same bytes' (cryptography,  go-jose key decoding). (K2) JOSE headers on the parse / verify paths are decoded with the go-jose decoder, which refuses duplicate member names (read from the library source): the verified signing input is rebuilt from the parsed header, so anything the decoder drops would be unsigned header content. The C16 rules (JWK coordinate width, padding helpers, strict reading) run inside this check as well. SerializeCompact writes each segment as the unpadded base64url text of its part. A supplied detached payload is the payload on every accepting path; NewJWS stores header maps made for that JWS; the compact form is three dot-separated segments however assembled. NewJWS hands sign the JOSE headers it stores; ed25519.Verify receives the whole signature parameter. VerifySignature accepts only behind Verify; the signer emits ecdsa.Sign's r and s as returned; Signature() returns a copy. The signing input is checked in concatenation form per alternative. The compact text is handed on as given. Closed sets of refusals for VerifyJWS and the header check."}
+	props["C16"] = &propDef{run: runC16, explanation: "Partial (thin). Decided statically: (K1) secp256k1 JWK marshalling pads X and Y (public and private form) through one padding helper with the constant 32 = ⌈256/8⌉, and the helper left-pads to exactly the requested length; (G1) unmarshalling a secp256k1 JWK succeeds only with X and Y present, each of length curveSize(S256) and the point on the curve (IsOnCurve true edge); curveSize is ⌈BitSize/8⌉; (T1) GetPublicKeyJWK's type switch admits exactly ed25519.PublicKey, *rsa.PublicKey and *ecdsa.PublicKey, marks a key as (EC, secp256k1) exactly when its curve is btcec.S256(), and rejects other types; isSecp256k1 compares both kty and crv. Not decided: the NIST and Ed25519 encodings (delegated to go-jose) and round-trip equality. (G2) closed rejection set of the secp256k1 reader: it says no only for a missing coordinate, a coordinate / private value of the wrong width, or a point off the curve (conditions inside helper predicates are followed). (K2) every (*big.Int).Bytes() flows only into a right-aligning sink; (G3) byteBuffer.data is exactly the base64url decoder's result. (*JWK).UnmarshalJSON stores the decoded key-type and curve labels before every accepting exit. The secp256k1 encoder writes the registered key-type and curve names; key conversion functions keep no state between calls. EC keys are built only in the checked reader's call tree; every decode into go-jose's JSONWebKey sits inside the strict reader; jws.JWK.Validate has the closed set of refusals; C15.X1's curve tables run here. JWK copies are member for member; C19.N on the JWK reader's functions. JWK texts for the strict reader are written by the JSON encoder; the receiver of UnmarshalJSON is untouched on failure. jwsutil writes through no jws.JWK it is handed; the secp256k1 encoder is chosen on the labels alone."}
 }
 
 var curveBits = map[string]int{"crypto/elliptic.P256()": 256, "crypto/elliptic.P384()": 384, "crypto/elliptic.P521()": 521, "github.com/btcsuite/btcd/btcec/v2.S256()": 256}
@@ -139,6 +139,56 @@ func runC15(c *Ctx) {
 			})
 		}
 		c.Check("C15.X2", "jwsutil:single-alphabet", n >= 8 && bad == 0, 0, fmt.Sprintf("%d base64 operations in jwsutil, %d not using RawURLEncoding", n, bad))
+	}
+	// "the library's own JWS verifies": VerifyJWS says no only when parsing, building the signing input or checking the
+	// signature does (an unexported helper on the way may, for the same reasons), and the header check only for a missing
+	// "alg" — a further demand of their own (an alg / curve table, a "crit" reading) refuses JWS the library itself signs
+	{
+		vj, ch := c.Fn("jwsutil", "VerifyJWS"), c.Fn("jwsutil", "checkJWSHeaders")
+		if vj == nil || ch == nil {
+			c.Unresolved("C15.G1", "jwsutil.VerifyJWS / checkJWSHeaders")
+		} else {
+			var extra []string
+			callRe := regexp.MustCompile(`^\((?:\(\*?)?jwsutil\.([A-Za-z0-9_]+)\)?\(`)
+			var walk func(f *ssa.Function, d int)
+			walk = func(f *ssa.Function, d int) {
+				for _, r := range c.rejectionReasons(f, nil, false, 3) {
+					m := callRe.FindStringSubmatch(r)
+					if m == nil {
+						extra = append(extra, short(f.String())+": "+r)
+						continue
+					}
+					switch m[1] {
+					case "ParseJWS", "VerifySignature", "signingInput":
+						continue
+					}
+					h := c.Fn("jwsutil", m[1])
+					if h != nil && h.Object() != nil && !h.Object().Exported() && d < 2 {
+						walk(h, d+1)
+						continue
+					}
+					extra = append(extra, short(f.String())+": "+r)
+				}
+			}
+			walk(vj, 0)
+			c.Check("C15.G1", "VerifyJWS:closed-set-of-refusals", len(extra) == 0, vj.Pos(), fmt.Sprintf("VerifyJWS refuses only what ParseJWS, signingInput or VerifySignature refuse; other reasons: %v", extra))
+			var extraH []string
+			rs := c.rejectionReasons(ch, nil, false, 0)
+			// (the refusals of a checker it hands the headers on to are its own)
+			for _, g := range c.reachableModuleFuncs([]*ssa.Function{ch}) {
+				if g != ch && returnsError(g) && pkgPathOf(g) == pkgPathOf(ch) {
+					for _, cl := range callsTo(ch, g) {
+						rs = append(rs, c.rejectionReasons(g, c.calleeEnv(&cl.Call, g, nil), false, 0)...)
+					}
+				}
+			}
+			for _, r := range rs {
+				if !strings.HasPrefix(r, `$0["alg"]`) && !strings.Contains(r, `$0["alg"]`) {
+					extraH = append(extraH, r)
+				}
+			}
+			c.Check("C15.G1", "checkJWSHeaders:closed-set-of-refusals", len(rs) >= 1 && len(extraH) == 0, ch.Pos(), fmt.Sprintf("the header check refuses only for the \"alg\" member; other reasons: %v", extraH))
+		}
 	}
 	// the compact text is split as it was given: ParseJWS and VerifyJWS hand the caller's string on (a text tidied first
 	// — white space trimmed — is a malformed compact form accepted)
@@ -707,6 +757,71 @@ func runC16(c *Ctx) {
 		}
 		c.Check("C16.G1", "jwk-texts-read-by-the-strict-reader-only", uj != nil && n > 0 && len(bad) == 0, 0, fmt.Sprintf("%d decode(s) into go-jose's JSONWebKey in the module, all inside (*jwsutil.JWK).UnmarshalJSON", n), bad...)
 	}
+	// a key that is read is not written: no function of jwsutil stores through a *jws.JWK it was handed (a "reduced copy"
+	// made by copying the pointer takes the nonce away from the caller's key, and with it the commitment computed next)
+	{
+		var bad []string
+		n := 0
+		for _, f := range c.Funcs {
+			if pkgPathOf(f) != modPkg+"jwsutil" || f.Blocks == nil {
+				continue
+			}
+			n++
+			forEachInstr(f, func(in ssa.Instruction) {
+				st, ok := in.(*ssa.Store)
+				if !ok {
+					return
+				}
+				if _, isFA := st.Addr.(*ssa.FieldAddr); !isFA {
+					return
+				}
+				p, isP := rootOf(st.Addr).(*ssa.Parameter)
+				if !isP || typeShort(derefT(p.Type())) != "jws.JWK" {
+					return
+				}
+				bad = append(bad, fmt.Sprintf("%s: %s writes through its argument %s", c.pos(st.Pos()), short(f.String()), p.Name()))
+			})
+		}
+		c.Check("C16.G1", "jwsutil:handed-keys-not-written", n >= 10 && len(bad) == 0, 0, fmt.Sprintf("%d functions of jwsutil: none stores into a jws.JWK it was handed", n), bad...)
+	}
+	// the encoder is chosen on the key's own labels: (*JWK).MarshalJSON hands the key to the secp256k1 encoder exactly
+	// when isSecp256k1(kty, crv) says so, and to go-jose otherwise (a choice "by exclusion" labels a key on any curve
+	// go-jose does not know as secp256k1)
+	if mj, ms := c.Method("jwsutil", "JWK", "MarshalJSON"), c.Fn("jwsutil", "marshalSecp256k1"); mj != nil && ms != nil {
+		n := 0
+		var bad []string
+		for _, g := range append([]*ssa.Function{mj}, c.helpersOf(mj, 1)...) {
+			for _, cl := range callsTo(g, ms) {
+				n++
+				// the branches that decide whether this call runs: exactly one, the true edge of isSecp256k1(kty, crv) of
+				// the receiver
+				nIf, okC := 0, false
+				for x := cl.Block(); x != nil; x = x.Idom() {
+					id := x.Idom()
+					if id == nil || len(x.Preds) != 1 {
+						continue
+					}
+					iff, isIf := id.Instrs[len(id.Instrs)-1].(*ssa.If)
+					if !isIf {
+						continue
+					}
+					nIf++
+					if pc, isC := iff.Cond.(*ssa.Call); isC && id.Succs[0] == x && pc.Call.StaticCallee() != nil && pc.Call.StaticCallee() == c.Fn("jwsutil", "isSecp256k1") && len(pc.Call.Args) == 2 {
+						a0, a1 := c.Path(pc.Call.Args[0], nil), c.Path(pc.Call.Args[1], nil)
+						if strings.HasSuffix(a0, ".Kty") && strings.HasSuffix(a1, ".Crv") && strings.TrimSuffix(a0, ".Kty") == strings.TrimSuffix(a1, ".Crv") {
+							okC = true
+						}
+					}
+				}
+				if !okC || nIf != 1 {
+					bad = append(bad, fmt.Sprintf("%s: the secp256k1 encoder is chosen under %v", c.pos(cl.Pos()), c.condsOf(cl.Block())))
+				}
+			}
+		}
+		c.Check("C16.G1", "MarshalJSON:secp256k1-encoder-chosen-on-the-labels", n == 1 && len(bad) == 0, mj.Pos(), fmt.Sprintf("%d call(s) of marshalSecp256k1, under isSecp256k1($0.Kty, $0.Crv) alone", n), bad...)
+	} else {
+		c.Unresolved("C16.G1", "(*jwsutil.JWK).MarshalJSON / marshalSecp256k1")
+	}
 	// a refused text leaves the key it was read into as it was: no store into the receiver of (*JWK).UnmarshalJSON is
 	// followed by a failing exit (labels written before the key is validated stay behind when validation fails: the old
 	// key under the new curve name)
@@ -755,7 +870,7 @@ func runC16(c *Ctx) {
 				bad = append(bad, fmt.Sprintf("%s: %s hands the strict reader %s", c.pos(cl.Pos()), short(f.String()), p))
 			}
 		}
-		c.Check("C16.G1", "jwk-texts-written-by-the-json-encoder", uj != nil && n >= 2 && len(bad) == 0, 0, fmt.Sprintf("%d text(s) handed to (*jwsutil.JWK).UnmarshalJSON in the module, each the caller's bytes or json.Marshal's result", n), bad...)
+		c.Check("C16.G1", "jwk-texts-written-by-the-json-encoder", uj != nil && n >= 1 && len(bad) == 0, 0, fmt.Sprintf("%d text(s) handed to (*jwsutil.JWK).UnmarshalJSON in the module, each the caller's bytes or json.Marshal's result", n), bad...)
 	}
 	// a JWK rebuilt from another JWK (the document's key handed to the Ed25519 reader, a key copied between the two JWK
 	// types) is copied member for member: kty from kty, crv from crv, x from x, y from y — a label supplied by the copying
@@ -1262,7 +1377,19 @@ func runC16(c *Ctx) {
 	c.signerVerifierTables("C15.X1")
 	// "… are rejected": with an error — the JWK reader dereferences the optional coordinate members ("x", "y", "d" may
 	// be absent or null) only behind a nil test (C19.N on the reader's functions); a panic is not a refusal
-	c.only(runC19, "C19.N::jwsutil.unmarshalSecp256k1", "C19.N::(*jwsutil.JWK).", "C19.N::(*jwsutil.byteBuffer).", "C19.N::jwsutil.marshalSecp256k1")
+	{
+		// (the reader's functions under the names they carry in this tree)
+		prefixes := []string{"C19.N::(*jwsutil.JWK).", "C19.N::(*jwsutil.byteBuffer)."}
+		for _, nm := range []string{"unmarshalSecp256k1", "marshalSecp256k1"} {
+			if f := c.Fn("jwsutil", nm); f != nil {
+				prefixes = append(prefixes, "C19.N::"+short(f.String())+":")
+			}
+		}
+		if bb := c.NamedType("jwsutil", "byteBuffer"); bb != nil {
+			prefixes = append(prefixes, "C19.N::(*jwsutil."+bb.Obj().Name()+").")
+		}
+		c.only(runC19, prefixes...)
+	}
 	c.Min("C19.N", 3)
 }
 
